@@ -250,10 +250,10 @@ def resolve(ip, v):
         return r
     if isinstance(v, VOptTerm):
         if v.res is not None:
-            return v.res
+            return resolve(ip, v.res) if isinstance(v.res, VJ) else v.res
         if ip.mode == 'code':
             v.res = v.kind.wrap(v.t, ip)
-            return v.res
+            return resolve(ip, v.res) if isinstance(v.res, VJ) else v.res
     return v
 
 
@@ -1668,7 +1668,12 @@ def minmax(ip, args, kwargs, node, fr, is_max):
             raise EngineError(f'max/min of {v!r}')
     vs = [resolve(ip, a) for a in args]
     if all(isinstance(v, VConst) for v in vs):
-        return VConst((max if is_max else min)(v.py for v in vs))
+        try:
+            return VConst((max if is_max else min)(v.py for v in vs))
+        except TypeError:
+            raise PyRaise(VExc('TypeError'), node)
+    if any(isinstance(v, VConst) and v.py is None for v in vs) and ip.mode == 'code':
+        raise PyRaise(VExc('TypeError'), node)        # None is not orderable
     if all(is_intlike(v) for v in vs):
         r = int_term(vs[0])
         for v in vs[1:]:
@@ -1687,6 +1692,11 @@ def minmax(ip, args, kwargs, node, fr, is_max):
         if ip.mode == 'code':
             return vs[1] if ip.branch(c) else vs[0]
         raise EngineError('max of tuples in specification mode')
+    if len(vs) == 2 and ip.mode == 'code':
+        # any two orderable values: decided by the comparison itself (raises TypeError when not orderable)
+        op = ast.Gt() if is_max else ast.Lt()
+        c = truth(ip, compare(ip, op, vs[1], vs[0], node))
+        return vs[1] if ip.branch(c) else vs[0]
     raise EngineError(f'max/min of {vs!r}')
 
 
@@ -3250,3 +3260,15 @@ def _st_unpack_from(ip, recv, args, kwargs, node, fr):
     o = int_term(off)
     ip.raise_if(z3.Or(o < 0, o + w > z3.Length(t)), 'struct.error', node)
     return struct_unpack(ip, recv, z3.SubSeq(t, o, w), node)
+
+
+@method('int', 'from_bytes')
+def _int_from_bytes(ip, recv, args, kwargs, node, fr):
+    b = resolve(ip, args[0])
+    order = resolve(ip, args[1] if len(args) > 1 else kwargs.get('byteorder', VConst('big')))
+    if not is_bytes(b) or not isinstance(order, VConst):
+        raise EngineError('int.from_bytes with these arguments')
+    enc, dec = struct_funcs('le' if order.py == 'little' else 'be', False)
+    r = dec(KBytes.unwrap(b))
+    ip.assume(r >= 0)
+    return VInt(r)
